@@ -319,7 +319,7 @@ fn jtext(v: &Value) -> Option<String> {
 }
 
 /// bytes -> Coq `list N`, long runs of one byte as `rep k b tail`
-fn cq_bytes_rle(b: &[u8]) -> String {
+pub fn cq_bytes_rle(b: &[u8]) -> String {
     if b.len() < 400 { return cq_bytes(b); }
     let mut parts: Vec<(bool, usize, usize)> = Vec::new(); // (is_run, start, end)
     let mut i = 0;
